@@ -1,4 +1,5 @@
 import Blue.Driver.Util
+import Blue.Driver.C20
 import Blue.Driver.C07
 import Blue.Driver.C06
 import Blue.Driver.C09
@@ -43,6 +44,7 @@ def dispatch (toks : List String) : String :=
   | "skip" :: _ | "list" :: _ => Blue.Driver.C17.handle toks
   | "kvsw" :: rest => Blue.Driver.C06.handle rest
   | "snap" :: rest => Blue.Driver.C07.handle rest
+  | "stall" :: rest => Blue.Driver.C20.handle rest
   | _ => "bad-op"
 
 partial def loop (h : IO.FS.Stream) (out : IO.FS.Stream) (grp : Option Blue.Driver.C09.Ctx) : IO Unit := do
